@@ -56,11 +56,11 @@ CHECKS.update({
         '(validated against Python shlex.split on every input) exhaustively on the plain/blank/quote/backslash alphabet. Deviations are classified by decidable features of the source (K1-K7).',
    note=TB + ' Words with command/process substitutions, backquotes and tildes are outside the theorem (decided per input); the K classes are the listed known findings.'),
  'C07': dict(level='proof', technique='Lean 4 proof (C07_partial: substitution parts are exactly the nested parser runs at the openers the scan reaches, shifted; C07_protected) + relation evaluated on implementation outcomes; model correspondence',
-   text='C07_partial / C07_word / C07_exact / C07_protected (Props/C07*.lean, 2700 lines): for every input and all options, every word or assignment node at any depth comes from a delivered token; its substitution parts are the nested parser\'s answers on the text after each opener '
+   text='C07_partial / C07_word / C07_exact / C07_protected (Props/C07*.lean, 2700 lines): for every input and all options, every word or assignment node at any depth comes from a delivered token; its substitution parts are the answers of the nested parser on the text after each opener '
         '($( <( >( backquote) the scan reaches, shifted to their offset, with the span formula made explicit (tight: through the closing parenthesis; loose: D9/D27), in scan order, disjoint and inside the word; openers are accounted for (a node, or one of four explicit ways of being skipped); a wholly single-quoted word and a word whose expansion characters are backslash-escaped have no parts, for every nested parser. '
         'Per input: for command texts A accepted alone and 13 embedding contexts the substitution node opened at the known offset must hold parse(A) shifted (relation in Lean); '
         'expansions under single quotes or backslashes in six word shapes must yield no substitution/parameter/tilde node.',
-   note=TB + ' Not proved: that the nested run (inherited last tokens, shared parser-state flags, the ")" end token) equals the stand-alone parse of the enclosed text, and that a token value is the source text; both are what the per-input relation decides. Exclusions are the known findings D6, D8, D9, D10, D27, D34.'),
+   note=TB + ' Not proved: that the nested run (inherited last tokens, shared parser-state flags, the closing-parenthesis end token) equals the stand-alone parse of the enclosed text, and that a token value is the source text; both are what the per-input relation decides. Exclusions are the known findings D6, D8, D9, D10, D27, D34.'),
  'C08': dict(level='proof', technique='Lean 4 proof: LR soundness on the regenerated tables (accepted => derivable); edit catalogue confirmed by bash -n',
    text='Proved (C09_sound, real_WF): whatever the LR engine accepts, in top-level and substitution mode, for every token source, is the yield of a derivation of the declared '
         'grammar, so no table artefact (conflict resolution, hand patches) lets an underivable token sequence through. String level: a catalogue of syntax-breaking edits of '
@@ -78,50 +78,8 @@ CHECKS.update({
         'specification is the intended one. Per input: inputs are built from their parts (1-3 operators, delimiter spellings, bodies, following text, enclosing construct), so operator position, body extent, tab stripping '
         'and the start of the following command are known; the Lean relation checks pairing in operator order, body span/value and the resume point on the implementation outcome.',
    note=TB + ' The theorems cover the reader given the queue; WHEN a redirect is queued relative to the look-ahead (D11: compound contexts) and quote removal of the delimiter (D11-quoted) are decided per input and are the known findings.'),
- 'C12': dict(level='proof', technique='Lean 4 typed AST + schema predicate evaluated on implementation outcomes + model correspondence; LR soundness with value invariants proved',
-   text='PROVED for all inputs and all options (C12_partial, C12_partial_single, C12_only_pipelines; 4000 lines, by induction over arbitrary LR runs with a sort-indexed value invariant, an abstract type-checker of the actions decided by the kernel on the regenerated grammar, the real tokenizer\'s type/value consistency sat_nextToken, and induction on nesting depth): every node of every tree the model returns satisfies Spec.schemaOK except two named pipeline shapes. Tie: every returned tree is deserialised by a total function into the typed Lean AST (attribute sets and attribute types are then facts of the type; '
-        'anything else is reported ill-typed) and Spec.schemaOK (sequence grammars of list/pipeline, kinds allowed per position, operator/pipe/redirect '
-        'vocabularies) is evaluated on every node, under all option combinations incl. proceedonerror.',
-   note=TB + ' C12_partial is about the model; it transfers to the implementation through the correspondence. Exclusions: BANG/timespec list_terminator (D12) and several leading ! in one pipeline.'),
-}
-
-CHECKS.update({
- 'C02': dict(level='translation_validation', technique='Lean 4 oracle (generator + renderer + expected AST in one definition) evaluated per case; model correspondence',
-   text='Abstract trees, their spellings and the AST a spelling denotes are ONE Lean definition (Spec/Render.lean, driven by a choice sequence): small trees are '
-        'enumerated exhaustively, larger ones sampled; parse(rendered) is compared with the expected tree (kinds, nesting, operators, reserved words, word values, '
-        'assignment classification, spans). The oracle checks itself on every case with the C03/C04/C05/C06/C12 predicates.',
-   note=TB + ' Per-case evaluation against a Lean-defined oracle (translation-validation strength), not a theorem over all trees; LR soundness (C09_sound) is the proved part.'),
- 'C06': dict(level='proof', technique='Lean 4 proof (C06_partial / C06_param: the expander equals Spec.quoteRemove on defect-feature-free token texts) + the same definition and POSIX shlex evaluated on implementation outcomes; model correspondence',
-   text='C06_plain/C06_total/C06_partial/C06_param (Props/C06*.lean): for every balanced token text free of the recorded defect features K1-K5, K8, K9 (K7x for words with parameters) the model of _expandword '
-        'returns exactly word(lexpos, endlexpos, quoteRemove(text)) with parameter nodes over quote-free text; each exclusion has a kernel-checked witness. Per input: Spec.quoteRemove (independent small-step definition keeping expansions verbatim) is compared with the value of every word/assignment node of every returned tree '
-        '(all words up to a length bound over the quoting alphabet in nine word positions, plus generated scripts); split is compared with a Lean transcription of POSIX shlex '
-        '(validated against Python shlex.split on every input) exhaustively on the plain/blank/quote/backslash alphabet. Deviations are classified by decidable features of the source (K1-K7).',
-   note=TB + ' Words with command/process substitutions, backquotes and tildes are outside the theorem (decided per input); the K classes are the listed known findings.'),
- 'C07': dict(level='proof', technique='Lean 4 proof (C07_partial: substitution parts are exactly the nested parser runs at the openers the scan reaches, shifted; C07_protected) + relation evaluated on implementation outcomes; model correspondence',
-   text='C07_partial / C07_word / C07_exact / C07_protected (Props/C07*.lean, 2700 lines): for every input and all options, every word or assignment node at any depth comes from a delivered token; its substitution parts are the nested parser\'s answers on the text after each opener '
-        '($( <( >( backquote) the scan reaches, shifted to their offset, with the span formula made explicit (tight: through the closing parenthesis; loose: D9/D27), in scan order, disjoint and inside the word; openers are accounted for (a node, or one of four explicit ways of being skipped); a wholly single-quoted word and a word whose expansion characters are backslash-escaped have no parts, for every nested parser. '
-        'Per input: for command texts A accepted alone and 13 embedding contexts the substitution node opened at the known offset must hold parse(A) shifted (relation in Lean); '
-        'expansions under single quotes or backslashes in six word shapes must yield no substitution/parameter/tilde node.',
-   note=TB + ' Not proved: that the nested run (inherited last tokens, shared parser-state flags, the ")" end token) equals the stand-alone parse of the enclosed text, and that a token value is the source text; both are what the per-input relation decides. Exclusions are the known findings D6, D8, D9, D10, D27, D34.'),
- 'C08': dict(level='proof', technique='Lean 4 proof: LR soundness on the regenerated tables (accepted => derivable); edit catalogue confirmed by bash -n',
-   text='Proved (C09_sound, real_WF): whatever the LR engine accepts, in top-level and substitution mode, for every token source, is the yield of a derivation of the declared '
-        'grammar, so no table artefact (conflict resolution, hand patches) lets an underivable token sequence through. String level: a catalogue of syntax-breaking edits of '
-        'well-formed scripts, each confirmed invalid by GNU bash -n, must be rejected; model correspondence on the same inputs.',
-   note=TB + ' bash -n only filters the catalogue. Quote/bracket balance of WORD tokens is observed, not proved.'),
- 'C09': dict(level='proof', technique='Lean 4 proof (kernel-checked table well-formedness + engine soundness) ; engine-vs-model traces; Earley recogniser for the converse',
-   text='tablesWF is decided by the kernel on the tables regenerated from the running code (after the import-time patches) and run_sound lifts it to: every accepted token '
-        'sequence is derivable and the engine never fails internally (=> direction, all inputs). The real LRParser.parse is driven by a synthetic token source and compared with the '
-        'Lean engine (verdict, tokens fetched, full reduction trace) on all sequences up to a length bound over six sub-alphabets in both modes; the <= direction is evaluated '
-        'against an independent Earley recogniser on the same sequences.',
-   note=TB + ' The <= direction (every derivable sentence is accepted) is bounded enumeration, not a theorem; known findings D8, D9.'),
- 'C10': dict(level='proof', technique='Lean 4 proof (gather_spec / makeheredoc_spec / readline_spec: the here-document reader equals a pure specification, FIFO pairing) + Lean relation with the pairing known by construction; model correspondence',
-   text='Props/C10*.lean: readline, makeheredoc and gatherheredocuments are proved EQUAL (as runs, for top-level and nested parsers) to pure specifications: the body is the lines up to and including the first line equal '
-        'to the delimiter (<<- strips leading tabs), span (start, cursor-1), the queue of pending redirects is served first-in-first-out with consecutive bodies and is empty afterwards; specHeredoc_lines/_slice/_cursor show the '
-        'specification is the intended one. Per input: inputs are built from their parts (1-3 operators, delimiter spellings, bodies, following text, enclosing construct), so operator position, body extent, tab stripping '
-        'and the start of the following command are known; the Lean relation checks pairing in operator order, body span/value and the resume point on the implementation outcome.',
-   note=TB + ' The theorems cover the reader given the queue; WHEN a redirect is queued relative to the look-ahead (D11: compound contexts) and quote removal of the delimiter (D11-quoted) are decided per input and are the known findings.'),
- 'C11': dict(level='proof', technique='Lean 4 predicate on error triples; history independence theorems (QCongr); model correspondence of (message, source, position)',
-   text='Eval.errOK (Lean) checks source = input, 0 <= position <= len, token text at position / EOF at len on every ParsingError of edits placed at top level, in '
+ 'C11': dict(level='proof', technique='Lean 4 proof (error positions lie inside the source at every tokenizer raise site and in p_error; C11_later; conditional theorems for source and position of top-level errors) + Lean predicate on error triples; history independence theorems (QCongr); model correspondence of (message, source, position)',
+   text='Props/C11*.lean (2660 lines, state-aware Hoare logic + automatic walk of the whole tokenizer): the cursor stays inside the line, every delivered token starts inside the line, every ParsingError built by the tokenizer and by p_error has 0 <= p <= len(src) (the assert in ParsingError.__init__ cannot fire there); the error of a later part is the unchanged error of a run on the suffix (C11_later: finding D15 stated exactly); under the token hypothesis TokLen: range of every escaping error at every depth, source of a top-level error = the input, unexpected EOF => p = len(src), unexpected token => p = lexpos of a delivered token. Per input: Eval.errOK (Lean) checks source = input, 0 <= position <= len, token text at position / EOF at len on every ParsingError of edits placed at top level, in '
         'substitutions, nested twice and in later lines; all calls run back to back in one process and the model (history-free, History.results_eq_solo) must agree on the triple.',
    note=TB + ' Known findings D15, D21 (nested / later-part parsers report their substring).'),
  'C13': dict(level='proof', technique='Lean 4 proof (C13_independence: parse(A ++ R) = parse(A) followed by the shifted parts of a fresh parse from the restart index, for every A whose runs are local; Q.run_prefix) + relation evaluated on outcomes',
